@@ -853,6 +853,58 @@ def oracle_IP(c, oi, w, ln, V):
         V.fail(c, oi, "InetAddress(%s): %s; expected %s" % (" ".join(w[1:4]), {k: f.get(k) for k in diff}, {k: exp[k] for k in diff}))
 
 
+# ------------------------------------------------------------------ counterexample computed inside Coq
+CEX_SCRIPT = """From Coq Require Import ZArith.
+From Muduo Require Import C20_Cex.
+Open Scope Z_scope.
+Eval vm_compute in cex_jdn.
+Eval vm_compute in cex_ymd.
+"""
+
+
+def coq_counterexample():
+    """When a calendar sweep lemma no longer checks: evaluate C20_Cex.cex_jdn / cex_ymd (the first failing
+    day of sweep A / sweep B on the functions regenerated from Date.cc / Date.h) with vm_compute INSIDE Coq.
+    Returns ({'jdn': [j, y, m, d, back] | None, 'ymd': [y, m, d, expected_j, j, y2, m2, d2, wd, expected_wd] | None}, log)."""
+    d = os.path.join(vlib.WORK, "C20_cex")
+    os.makedirs(d, exist_ok=True)
+    with open(os.path.join(d, "cexrun.v"), "w") as f:
+        f.write(CEX_SCRIPT)
+    if not os.path.exists(os.path.join(vlib.COQ, "C20_Cex.vo")):
+        return {"jdn": None, "ymd": None}, "C20_Cex.vo was not built"
+    with vlib.Lock("coq"):
+        rc, out = vlib.sh(["coqc", "-Q", vlib.COQ, "Muduo", "cexrun.v"], cwd=d, timeout=900)
+    res = {"jdn": None, "ymd": None}
+    blocks = re.split(r"\n\s*=\s", "\n" + out)[1:]
+    for name, blk in zip(("jdn", "ymd"), blocks):
+        val = blk.split("\n     :")[0]
+        if val.strip().startswith("Some"):
+            res[name] = [int(x) for x in re.findall(r"-?\d+", val)]
+    return res, out[-1500:]
+
+
+def cex_cases(cex):
+    """replay cases for the C++ built from the days Coq computed"""
+    cases = []
+    if cex.get("jdn"):
+        j = cex["jdn"][0]
+        cases.append((vlib.Case("coqcex_jdn", "cal", ["D %d %d" % (j, j)], "calendar-exhaustive"),
+                      "sweep A (by day number): first failing day computed inside Coq is j=%d: the generated getYearMonthDay gives %d-%d-%d, "
+                      "the generated getJulianDayNumber maps that back to %d" % tuple(cex["jdn"][:5])))
+    if cex.get("ymd"):
+        y, m, dd, ej, j, y2, m2, d2, wd, ewd = cex["ymd"][:10]
+        ops = ["D %d %d" % (ej, ej)]
+        if JFIRST <= j <= JLAST and j != ej:
+            ops.append("D %d %d" % (j, j))
+        cases.append((vlib.Case("coqcex_ymd", "cal", ops, "calendar-exhaustive"),
+                      "sweep B (by date): first failing date computed inside Coq is %d-%02d-%02d: proleptic Gregorian day number %d, the generated "
+                      "getJulianDayNumber gives %d, which the generated getYearMonthDay maps to %d-%d-%d; generated weekDay %d, expected %d"
+                      % (y, m, dd, ej, j, y2, m2, d2, wd, ewd)))
+        cases.append((vlib.Case("coqcex_ymd_utc", "utc", ["V %d %d %d 0 0 0" % (y, m, dd)], "utc"),
+                      "the same date through TimeZone::fromUtcTime (%d-%02d-%02d 00:00:00)" % (y, m, dd)))
+    return cases
+
+
 # ------------------------------------------------------------------ running
 def load_case_file(path, tag="replay"):
     cases, cid, header, ops = [], None, "", []
@@ -898,7 +950,7 @@ def single_op_case(c, oi):
 
 def run(chk, replay=None):
     tier, rng = chk.tier, chk.rng
-    pr = chk.prove()
+    pr = chk.prove(extra_targets=["C20_Cex.vo"])
     model = vlib.build_model(PROP)
     impl = vlib.build_driver("C20_driver", ["C20_driver.cc"], variant="asan", extra_flags=DRIVER_FLAGS)
     t_gen = time.time()
@@ -1049,6 +1101,22 @@ def run(chk, replay=None):
         else:
             p = chk.write_replay("finding_%s.case" % key, replay_text(small, msg))
             chk.violation(p, "C20 finding (not yet listed in KNOWN_FINDINGS.txt, key=%s): %s" % (key, msg))
+    coq_confirmed = False
+    if not pr["ok"] and not replay:
+        cex, cexlog = coq_counterexample()
+        chk.cov["coq_counterexample"] = cex
+        for (cc, text) in cex_cases(cex):
+            io, cr = vlib.run_batch(impl, [cc], timeout=300)
+            v2 = Verdicts()
+            if cc.cid not in cr:
+                oracle_case(cc, io.get(cc.cid, []), v2, tables)
+            if cc.cid in cr or v2.bad:
+                coq_confirmed = True
+                why = v2.bad[0][2] if v2.bad else "the implementation crashed on it"
+                pth = chk.write_replay("%s.case" % cc.cid, replay_text(cc, "counterexample computed inside Coq (vm_compute of C20_Cex on the functions "
+                                       "regenerated from Date.cc / Date.h) -- " + text + "\nreplayed on the C++: " + why))
+                chk.violation(pth, "C20: a calendar sweep lemma no longer checks (%s); %s; replayed on the C++: %s" % (pr["broken"], text, why))
+                break
     if V.bad:
         seen_kinds = set()
         # the most direct witnesses first: a failing day, then UTC instants, then the rest
@@ -1071,7 +1139,7 @@ def run(chk, replay=None):
             if not pr["ok"]:
                 what += "; proof obligations broken as well: %s" % (pr["broken"],)
             chk.violation(p, what)
-    elif corr_bad or wf_bad or not pr["ok"]:
+    elif (corr_bad or wf_bad or not pr["ok"]) and not coq_confirmed:
         what = []
         body = ""
         if not pr["ok"]:
